@@ -1,3 +1,4 @@
+import Oidc.Shapes
 import Oidc.Proofs.Handler4
 import Oidc.Proofs.World4
 import Oidc.Proofs.WorldHist
@@ -109,5 +110,12 @@ def exC : Cfg where
 example (e : Env) (r : Req) (h : r.path = "/pub/x".toList) : (serveV exC e r (getSession 86400 (fun _ => none) e.now 5)).resp = .passthrough := by
   have : excludedPath exC r.path = true := by rw [h]; decide
   exact (excluded_passthrough exC e r _ this).1
+
+
+/-! obligations against the regenerated shapes: the functions these theorems rest on still have the steps, guards, status
+    codes and literals the model was written against (`Oidc/Shapes.lean`) -/
+theorem shape_ServeHTTP_ok : Oidc.Shapes.Shape_ServeHTTP := by unfold Oidc.Shapes.Shape_ServeHTTP; rfl
+theorem shape_isUserAuthenticated_ok : Oidc.Shapes.Shape_isUserAuthenticated := by unfold Oidc.Shapes.Shape_isUserAuthenticated; rfl
+theorem shape_processAuthorizedRequest_ok : Oidc.Shapes.Shape_processAuthorizedRequest := by unfold Oidc.Shapes.Shape_processAuthorizedRequest; rfl
 
 end Oidc.Props.C01
